@@ -43,9 +43,14 @@ def induced(n, edges, verts):
     return len(verts), [[idx[i], idx[j]] for i, j in edges if i in idx and j in idx]
 
 
-def min_distortion(DX, DY, upper=None):
+class Budget(Exception):
+    """the exact search exceeded its node budget (the case is then not judged)"""
+
+
+def min_distortion(DX, DY, upper=None, node_limit=60000):
     """min over all maps X -> Y of the distortion, by branch and bound (images chosen vertex by vertex)"""
     n, m = len(DX), len(DY)
+    nodes = [0]
     if n == 0:
         return 0
     best = [upper if upper is not None else max(max(max(r) for r in DX), max(max(r) for r in DY)) + 1]
@@ -56,6 +61,9 @@ def min_distortion(DX, DY, upper=None):
     def rec(k, cur):
         if cur >= best[0]:
             return
+        nodes[0] += 1
+        if nodes[0] > node_limit:
+            raise Budget()
         if k == n:
             best[0] = cur
             return
